@@ -65,13 +65,13 @@ def _server_class():
             self.pos += 1
             if kind == "r":
                 raise make_exc(v)
-            return v
+            return code_value(v)
 
     def generator(items):
         for kind, v in items:
             if kind == "r":
                 raise make_exc(v)
-            yield v
+            yield code_value(v)
 
     @api.expose
     class Source(object):
@@ -85,7 +85,7 @@ def _server_class():
             return StepIter(items)
 
         def lst(self, items):
-            return iter([v for k, v in items if k == "y"])
+            return iter([code_value(v) for k, v in items if k == "y"])
 
         @property
         def prop(self):
@@ -94,6 +94,42 @@ def _server_class():
         def plain(self):
             return 42
     return Source
+
+
+# Item values are opaque to the model (codes); on the wire they are Python values of every shape, in particular
+# falsy values and values an implementation might plausibly (mis)use as an end-of-stream or error sentinel.
+# (Ellipsis, NotImplemented and exception *classes* cannot be serialised by serpent and are left out.)
+SPECIAL_BASE = 5000
+
+
+def _specials():
+    return [None, False, True, "", [], (), {}, 0.0, StopIteration(), StopIteration("x"), "StopIteration", GeneratorExit(),
+            [None], -1, (None,), "None", {"a": None}, 1.5]
+
+
+def value_key(v):
+    return (type(v).__name__, repr(v))
+
+
+SPECIAL_KEYS = {value_key(v): SPECIAL_BASE + i for i, v in enumerate(_specials())}
+N_SPECIAL = len(SPECIAL_KEYS)
+
+
+def code_value(code):
+    """the Python value an item code stands for (a fresh object each time)"""
+    return code if code < SPECIAL_BASE else _specials()[code - SPECIAL_BASE]
+
+
+def value_code(v):
+    """inverse of code_value on what the client received; None if it is not a value of the alphabet"""
+    if isinstance(v, int) and not isinstance(v, bool) and 0 <= v < SPECIAL_BASE:
+        return v
+    return SPECIAL_KEYS.get(value_key(v))
+
+
+def item_resp(v):
+    c = value_code(v)
+    return ["item", c] if c is not None else ["other:value:" + value_key(v)[0], 0]
 
 
 def make_exc(e):
@@ -204,7 +240,7 @@ def run_impl(case):
                     elif k == "next":
                         try:
                             v = next(iters[op[1]])
-                            resp = ["item", v] if isinstance(v, int) and not isinstance(v, bool) and v >= 0 else ["other:value", 0]
+                            resp = item_resp(v)
                         except Exception as x:
                             resp = classify(x)
                     elif k == "nextf":
@@ -212,7 +248,7 @@ def run_impl(case):
                         net.script([{"kind": op[2]}], skip_handshake=True)
                         try:
                             v = next(iters[op[1]])
-                            resp = ["item", v] if isinstance(v, int) and not isinstance(v, bool) and v >= 0 else ["other:value", 0]
+                            resp = item_resp(v)
                         except Exception as x:
                             sent = sum(1 for e in net.events if e[1] == "request") > nreq
                             if sent and isinstance(x, errors.CommunicationError):
@@ -240,7 +276,7 @@ def run_impl(case):
                         try:
                             if k == "rawnext":
                                 v = proxies[p]._pyroInvoke("get_next_stream_item", [sid], {}, objectId=core.DAEMON_NAME)
-                                resp = ["item", v] if isinstance(v, int) and not isinstance(v, bool) and v >= 0 else ["other:value", 0]
+                                resp = item_resp(v)
                             else:
                                 import Pyro5.protocol as protocol
                                 proxies[p]._pyroInvoke("close_stream", [sid], {}, flags=protocol.FLAGS_ONEWAY, objectId=core.DAEMON_NAME)
@@ -594,6 +630,11 @@ CONFIGS = [(True, 0, 30), (True, 0, 0), (True, 0, 2), (True, 0, 5), (True, 3, 0)
 def gen_items(rng):
     n = rng.choice([0, 0, 1, 1, 2, 3, 4, 6, 9, rng.randint(0, 14)])
     items = [["y", rng.randrange(0, 1000)] for _ in range(n)]
+    if rng.random() < 0.45:
+        # values of every shape: falsy ones and plausible sentinels (None, StopIteration instances, (), ...) in any position
+        for it in items:
+            if rng.random() < 0.4:
+                it[1] = rng.choice([0, 0] + [SPECIAL_BASE + i for i in range(N_SPECIAL)])
     r = rng.random()
     if r < 0.3 and True:
         pos = rng.randint(0, len(items))
@@ -603,7 +644,7 @@ def gen_items(rng):
             items.insert(rng.randint(0, len(items)), ["r", rng.randrange(0, 200)])
     if rng.random() < 0.2 and items:
         # repeated values: a repeated delivery and a skipped item look alike unless values collide
-        v = rng.randrange(0, 5)
+        v = rng.choice([rng.randrange(0, 5), SPECIAL_BASE + rng.randrange(N_SPECIAL)])
         items = [[k, (v if k == "y" else x)] for k, x in items]
     return items
 
@@ -718,6 +759,17 @@ def targeted():
     for c in out:
         if not c["cfg"]["streaming"]:      # no client iterators exist: ask by (non-existent) id instead
             c["ops"] = [(["rawnext", 0, o[1]] if o[0] in ("next", "nextf") else ["rawclose", 0, o[1]] if o[0] == "close" else o) for o in c["ops"]]
+    cfg = {"streaming": True, "lifetime": 0, "linger": 30}
+    for sv in [0] + [SPECIAL_BASE + i for i in range(N_SPECIAL)]:
+        for j, how in enumerate(("gen", "itr", "lst", "prop")):
+            lists = [[sv], [sv, 1, 2], [1, sv, 2], [1, 2, sv], [sv, sv, 3]]
+            if how == "prop":
+                lists = lists[2:3]
+            for vals in lists:
+                items = [["y", v] for v in vals]
+                out.append({"cfg": cfg, "nprox": 1, "ops": [["open", 0, how, items]] + [["next", 0]] * (len(items) + 2)})
+        out.append({"cfg": cfg, "nprox": 2, "ops": [["open", 0, "itr", [["y", sv], ["r", 7], ["y", sv]]], ["open", 1, "gen", [["y", 1], ["y", sv], ["y", 2]]],
+                                                    ["next", 0], ["next", 1], ["next", 1], ["release", 1], ["next", 0], ["reconnect", 1], ["next", 1], ["next", 1], ["next", 0]]})
     out.append({"cfg": "default", "nprox": 1, "ops": [["open", 0, "gen", three], ["next", 0], ["release", 0], ["tick", 30], ["hk"], ["reconnect", 0], ["next", 0],
                                                       ["release", 0], ["tick", 31], ["hk"], ["reconnect", 0], ["next", 0]]})
     out.append({"cfg": "default", "nprox": 1, "ops": [["open", 0, "gen", three], ["tick", 100000], ["hk"], ["next", 0]]})
@@ -726,7 +778,7 @@ def targeted():
 
 def gen_cases(ctx):
     rng = ctx.rng
-    cases = [gen_case(rng) for _ in range(ctx.n(1450, 15000))]
+    cases = [gen_case(rng) for _ in range(ctx.n(1300, 15000))]
     cases += [gen_case(rng, long=True) for _ in range(ctx.n(80, 1000))]
     return cases
 
@@ -771,7 +823,8 @@ def run(ctx, model_ok=True):
     execute(ctx, cases, model_ok, res)
     res.rule = ("seeded random client histories (open via generator / iterator class / list iterator / exposed property, next, close, "
                 "next during a transport failure (request lost / reply lost / reset / cut reply), release, reconnect, next/close by id from another proxy, housekeeping, clock ticks) over 1-4 proxies and up to ~8 streams, "
-                "item lists empty/long/raising midway/with repeated values, 12 fixed + random (streaming, lifetime, linger) settings and the "
+                "item lists empty/long/raising midway/with repeated values, item values of every shape (ints incl. 0, None, False, '', [], (), {}, 0.0, "
+                "StopIteration / GeneratorExit instances, 'StopIteration', [None], ...) in every position (also targeted: first/middle/last/only, per iterator kind), 12 fixed + random (streaming, lifetime, linger) settings and the "
                 "library defaults; plus targeted histories for each clause of the property; non-trivial = at least one item delivered and "
                 "three different kinds of answer; distinct = distinct case hash")
     res.samples = cases[-2:] + cases[:1]
